@@ -38,8 +38,12 @@ namespace Arena
 
 def node (a : Arena V) (i : Nat) : Option (ANode V) := a.nodes[i]?
 
+/-- in-place update of one slot (a no-op outside the arena) -/
+def upd (a : Arena V) (i : Nat) (f : ANode V → ANode V) : Arena V := { a with nodes := a.nodes.modify i f }
+
+/-- `node_mut(i)` followed by field writes; an index outside the arena is a fault -/
 def modify (a : Arena V) (i : Nat) (f : ANode V → ANode V) : Option (Arena V) :=
-  if h : i < a.nodes.size then some { a with nodes := a.nodes.set i (f a.nodes[i]) } else none
+  if i < a.nodes.size then some (a.upd i f) else none
 
 def setParent (a : Arena V) (i p : Nat) := a.modify i fun n => { n with parent := p }
 def setLeft (a : Arena V) (i p : Nat) := a.modify i fun n => { n with left := p }
